@@ -58,6 +58,10 @@ CHECKS = {
          "Every generated input is delivered to the real server in child processes: C01 datagram classes plus window-edge reports at every now-offset in 3568..4032 and beyond two windows, the same during start-up catch-up (hook migrate.catchup), sync requests of all length/id/idle classes, the route x method x query x body matrix incl. GCA-signed extremes and unserializable values, authorizations with peers down/resetting/garbling, shutdown with held connections. Held = no process death, no 'http: panic serving', no AddressSanitizer report (thorough), the liveness triple answered after every input, both mutexes free at quiescence, every Close() returned. A blocked shutdown is a violation only for the idle-sync-reader pattern seen in two goroutine dumps. Sampled input space.",
          "Trusts the verif hooks, the refenc sync parser, Go's goroutine dump. Never executed: the weekly WattTime job (no-op in test builds), geo-stats past its external fetch, peers that accept and never answer.",
          "DESIGN.md §4 C12"),
+ "C13": ("exploration", "race-detector delay-injection matrix + gap interleavings against a sequential model + porcupine linearizability + lock probe / goroutine-dump classification, on the real server under -race",
+         "For every hook site x operation cell (22 sites x 17 operations) the interfering operation runs to completion while the hooked goroutine stands still without synchronising; the Go race detector must report nothing on the real server. An operation injected synchronously into each of 10 between-critical-section gaps must leave the process alive, both mutexes free, the invariants intact and the state equal to the sequential model in the imposed order. Recorded concurrent histories incl. rotation must be linearizable (porcupine), and all 171 operation-kind pairs overlap under 8-64 goroutines with the real rotation and impact jobs running. Only executed paths are decided (159 of 203 blocks of the locking functions, listed in evidence); lock ORDER is seen only through deadlock; the weekly WattTime job is never executed.",
+         "Trusts the Go race detector (happens-before; blind where a later correct lock orders the accesses, and across cgo calls), porcupine v1.3.0, lib/refenc with go-ethereum signatures, the Verif* accessors and hook sites of server/verif_on.go.",
+         "DESIGN.md §4 C13"),
  "C15": ("exploration", "differential runtime check: real encoders/decoders/Sign/Verify and real JSON endpoints vs independent reference encodings and go-ethereum; generated and boundary values, all-bit-flip Verify sweeps",
          "Every generated value of the seven structures is encoded, decoded and reduced to signing bytes by the repository's functions and compared byte-exactly with encodings written from the documented layouts; wrong lengths, single-field perturbations and cross-type collisions are judged on the actual bytes. Sign is compared with go-ethereum's deterministic signature, twice in-process and across two processes; every bit of signing bytes, signature and key is flipped for a sample of messages. Authorizations travel through the real POST/GET endpoints, the server's own forwarding to a peer, the file and a restart, bit-exact for all finite float classes. The value space is sampled.",
          "Trusts lib/refenc (DESIGN Appendix A), go-ethereum crypto, Go's strconv/encoding/json. The stats decoder is never fed a garbage device count (out of domain, DESIGN §6).",
